@@ -80,7 +80,9 @@ fn float_eq(a: f64, b: f64) -> bool {
         diff < (f64::EPSILON * f64::MIN_POSITIVE)
     } else {
         // use relative error.
-        diff / (abs_a + abs_b) < f64::EPSILON
+        // The sum of the magnitudes can overflow to infinity, which would make
+        // the ratio 0 and every pair of huge numbers "equal".
+        diff / (abs_a + abs_b).min(f64::MAX) < f64::EPSILON
     }
 }
 
